@@ -114,6 +114,12 @@ func c05Programs(thorough bool) []c05Prog {
 		p("record-field-declared-twice", "package main\n\ntype R = {A: int; B: string; A: string}\n\nlet f (r:R) =\n  r.A\n"),
 		p("package-info-entry-twice", "package main\n\npackage_info ext =\n  type H\n  let Hd: ()->H\n  let Use: H->int\n  let Hd: int->H\n  type H\n\nlet f () =\n  ext.Use (ext.Hd ())\n"),
 		p("type-declared-twice", "package main\n\ntype R = {A: int}\ntype R = {A: int; B: int}\n\nlet f () =\n  {A=1}\n"),
+		// rules that name something that is not a case of the union (a typo, a renamed case) next to cases no rule names
+		// (after seed C05i: one mixed list of offenders, decided by whichever entry comes first)
+		p("match-foreign-case-with-default", "package main\n\ntype U =\n  | A of int\n  | B\n  | C\n\nlet f (u:U) =\n  match u with\n  | A x -> x\n  | Bogus _ -> 1\n  | _ -> 0\n"),
+		p("match-two-foreign-cases-with-default", "package main\n\ntype U =\n  | A of int\n  | B\n  | C\n  | D\n\nlet f (u:U) =\n  match u with\n  | Zed _ -> 2\n  | A x -> x\n  | Bogus _ -> 1\n  | _ -> 0\n"),
+		p("match-foreign-case-no-default", "package main\n\ntype U =\n  | A of int\n  | B\n  | C\n\nlet f (u:U) =\n  match u with\n  | A x -> x\n  | Bogus _ -> 1\n  | B -> 2\n"),
+		p("match-foreign-bare-case-complete", "package main\n\ntype U =\n  | A of int\n  | B\n\nlet f (u:U) =\n  match u with\n  | A x -> x\n  | Bogus -> 1\n  | B -> 2\n"),
 		p("syntax-error", "package main\n\nlet f ( =\n  1\n"),
 		p("unknown-variable", "package main\n\ntype R = {A: int}\ntype S = {A: int}\n\nlet f () =\n  nosuch {A=1}\n"),
 		p("record-literal-no-match", "package main\n\ntype R = {A: int}\ntype S = {B: int}\n\nlet f () =\n  {C=1}\n"),
